@@ -450,7 +450,7 @@ def ptrref_check(schema):
     return n, bad
 
 
-def sql_addresses(schema, sim, limit=6):
+def sql_addresses(schema, sim, names, limit=6):
     """compile `select T { stored pointers..., link: { @lprops } }` for the user types with the real
     compiler and check that every relation of schema edgedbpub and every uuid-named column the SQL
     addresses exists in the simulated catalog."""
@@ -506,13 +506,13 @@ def sql_addresses(schema, sim, limit=6):
         V().visit(res.ast)
         for r in sorted(rels):
             if r not in sim.tables:
-                bad.append(['sql-addresses-missing-table', text[:200], list(r)])
+                bad.append(['sql-addresses-missing-table', names.table(r), text[:200]])
         have = set()
         for r in rels:
             have |= set(sim.tables.get(r, ()))
         for c in sorted(cols):
             if c not in have:
-                bad.append(['sql-addresses-missing-column', text[:200], c])
+                bad.append(['sql-addresses-missing-column', names.column(c), text[:200]])
     return n, bad
 
 
@@ -795,7 +795,7 @@ def run_history(case, verbose=False):
             mon.append(['ptrref-check-raised', errinfo(e)])
         if want_sql and (i == len(case['steps']) - 1 or st.get('probe')):
             try:
-                nq, bad = sql_addresses(cur, sim)
+                nq, bad = sql_addresses(cur, sim, names)
                 r['nsql'] = nq
                 for b in bad[:4]:
                     mon.append(b)
